@@ -596,7 +596,7 @@ def matrix_key(ph):
         ex = "serial" if ph["sched"] is None else "forced-order(pickled both ways)"
         extra = []
     o = ph.get("opts") or {}
-    extra += [f"{k}={o[k]}" for k in sorted(o)]
+    extra += [f"{k}={o[k]}" for k in sorted(o) if k != "logger"]
     extra.append("logger=" + (("given" if o.get("logger") == "given" else "default") if ph["logging"] else "False"))
     if ph.get("as_store"):
         extra.append("input=datastore")
